@@ -14,6 +14,7 @@ import (
 	"math/big"
 	"math/rand"
 	"sort"
+	"strings"
 	"time"
 
 	"github.com/zmap/zlint/v3/lint"
@@ -217,11 +218,24 @@ func cmdOrder(args []string) {
 		seg := len(objs)
 		base := objs[templates[0]]
 		fcb := forged[base.ID]
+		// dated after every effective date of the registry, so that no rule is silent only because the template is old - or, with
+		// early set, in late 2020: inside the window of the rules that have since been retired (ineffective dates 2021 and later)
+		early := false
+		cnOverride := ""
 		mk := func(order []int) *Target {
 			v := fcb.Clone()
-			// dated after every effective date of the registry, so that no rule is silent only because the template is old
-			v.SetNotBefore(time.Date(2024, 3, 1, 0, 0, 0, 0, time.UTC))
-			v.SetNotAfter(time.Date(2024, 5, 30, 0, 0, 0, 0, time.UTC))
+			if cnOverride != "" {
+				if !forge.SetAttr(v.Subject(), "2.5.4.3", 0x0c, []byte(cnOverride)) {
+					forge.AddAttr(v.Subject(), forge.OID(2, 5, 4, 3), 0x0c, []byte(cnOverride))
+				}
+			}
+			if early {
+				v.SetNotBefore(time.Date(2020, 10, 1, 0, 0, 0, 0, time.UTC))
+				v.SetNotAfter(time.Date(2020, 12, 30, 0, 0, 0, 0, time.UTC))
+			} else {
+				v.SetNotBefore(time.Date(2024, 3, 1, 0, 0, 0, 0, time.UTC))
+				v.SetNotAfter(time.Date(2024, 5, 30, 0, 0, 0, 0, time.UTC))
+			}
 			var nn []*forge.Node
 			for _, x := range order {
 				nn = append(nn, forge.Raw(vocab[x].raw))
@@ -289,6 +303,7 @@ func cmdOrder(args []string) {
 			if p.i == p.j {
 				continue
 			}
+			early = k%3 == 2 // every third pair is judged by the retired rules as well
 			a, b2 := mk([]int{p.i, p.j}), mk([]int{p.j, p.i})
 			if a == nil || b2 == nil {
 				continue
@@ -309,6 +324,79 @@ func cmdOrder(args []string) {
 			planted++
 		}
 		behaviourClasses = len(classOf)
+		// (4) long lists (16 names and more) in telling orders: ascending by bytes, descending, ascending with the ends swapped, random.
+		// A rule that takes a short cut for big or sorted lists must still judge the set.  The lists hold plain names, the template's
+		// common name in another letter case (with and without the exact common name) and representatives of the behaviour classes.
+		cn := "shop.long-list.example.com" // the common name of the long-list certificates
+		cnOverride = cn
+		addV := func(sname string) int {
+			b := forge.GN(forge.GNDNS, []byte(sname)).Bytes()
+			vocab = append(vocab, gname{b, forge.GNDNS})
+			return len(vocab) - 1
+		}
+		var plain []int
+		for k := 0; k < 40; k++ {
+			plain = append(plain, addV(fmt.Sprintf("%c%02d.long-list.example.com", 'a'+byte(k%26), k)))
+		}
+		upperCN, mixedCN, exactCN := -1, -1, -1
+		if cn != "" && strings.Contains(cn, ".") {
+			upperCN, exactCN = addV(strings.ToUpper(cn)), addV(cn)
+			mixedCN = addV(strings.ToUpper(cn[:1]) + cn[1:])
+		}
+		early = false
+		nlong := 0
+		longList := func(tag string, members []int) {
+			var clean []int
+			for _, m := range members {
+				if m >= 0 {
+					clean = append(clean, m)
+				}
+			}
+			asc := append([]int{}, clean...)
+			sort.Slice(asc, func(a, b2 int) bool { return bytes.Compare(forge.Raw(vocab[asc[a]].raw).Body(), forge.Raw(vocab[asc[b2]].raw).Body()) < 0 })
+			desc := make([]int, len(asc))
+			for k := range asc {
+				desc[len(asc)-1-k] = asc[k]
+			}
+			swapped := append([]int{}, asc...)
+			swapped[0], swapped[len(swapped)-1] = swapped[len(swapped)-1], swapped[0]
+			orders := [][]int{asc, desc, swapped}
+			for k := 0; k < 2; k++ {
+				r := append([]int{}, asc...)
+				rng.Shuffle(len(r), func(a, b2 int) { r[a], r[b2] = r[b2], r[a] })
+				orders = append(orders, r)
+			}
+			first := true
+			for oi2, o := range orders {
+				t := mk(o)
+				if t == nil {
+					continue
+				}
+				if first {
+					h.objs = append(h.objs, t)
+					first = false
+				}
+				h.lintTarget(seg, t, 0, fmt.Sprintf("long-list:%s:%d-names:order%d", tag, len(o), oi2), false)
+				nlong++
+			}
+			if !first {
+				seg++
+			}
+		}
+		for _, n := range []int{15, 16, 17, 24, 39, 16, 24} {
+			early = !early
+			longList("plain+UPPER-CN", append(append([]int{}, plain[:n]...), upperCN))
+			longList("plain+exact-CN", append(append([]int{}, plain[:n]...), exactCN))
+			longList("plain+Mixed-CN+UPPER-CN", append(append([]int{}, plain[:n]...), mixedCN, upperCN))
+		}
+		for k, r := range reps {
+			if k%3 != int(seed)%3 && tier != "thorough" {
+				continue
+			}
+			early = k%2 == 0
+			longList(fmt.Sprintf("plain+class-representative-%d", r), append(append([]int{}, plain[:17]...), r, upperCN))
+		}
+		planted += nlong
 	}
 	n := h.write(out("history.ndjson"))
 	withFinding := 0
@@ -432,6 +520,43 @@ func cmdSig(args []string) {
 		variants["embed-outer-alg"] = fill(append([]byte{}, fc.OuterAlg().Bytes()...))
 		variants["embed-tbs-head"] = fill(append([]byte{}, t.Cert.RawTBSCertificate[:min(len(t.Cert.RawTBSCertificate), 200)]...))
 		variants["embed-spki"] = fill(append([]byte{}, fc.SPKI().Bytes()...))
+		variants["embed-validity"] = fill(append([]byte{}, fc.Validity().Bytes()...))
+		variants["embed-subject-issuer"] = fill(append(append([]byte{}, fc.Subject().Bytes()...), fc.Issuer().Bytes()...))
+		// the certificate's own extensions in OTHER encodings than the one it uses (criticality written out as FALSE, as TRUE,
+		// or left out): what a rule about encodings looks for, present only in the signature
+		if exts := fc.Exts(); exts != nil && len(exts.Children) > 0 {
+			alt := func(start int) []byte {
+				var out []byte
+				for k := range exts.Children {
+					x := exts.Children[(start+k)%len(exts.Children)]
+					if len(x.Children) < 2 {
+						continue
+					}
+					val := forge.ExtValue(x).Bytes()
+					if len(val) > 6 {
+						val = val[:6]
+					}
+					oid := x.Children[0].Bytes()
+					out = append(out, oid...)
+					out = append(out, 0x01, 0x01, 0x00)
+					out = append(out, val...)
+					out = append(out, oid...)
+					if len(x.Children) == 3 {
+						out = append(out, val...) // critical in the certificate: here without the flag
+					} else {
+						out = append(out, 0x01, 0x01, 0xff)
+						out = append(out, val...)
+					}
+				}
+				return out
+			}
+			if a := alt(0); len(a) > 0 {
+				variants["embed-ext-other-encodings-a"] = fill(a)
+				variants["embed-ext-other-encodings-b"] = fill(alt(len(exts.Children) / 2))
+				variants["embed-ext-other-encodings-c"] = fill(alt(len(exts.Children) - 1))
+			}
+			variants["embed-extensions"] = fill(append([]byte{}, exts.Bytes()...))
+		}
 		for k := 0; k < nrandom; k++ {
 			variants[fmt.Sprintf("random%d", k)] = func(o []byte) []byte {
 				rng.Read(o)
